@@ -265,6 +265,9 @@ func (e *Eng) declaredMods(sp *FuncSpec, _ *evalCtx) map[string]bool {
 	pkg := e.typesPkg(sp.Pkg)
 	cx := &evalCtx{run: &Run{eng: e}, pkg: pkg}
 	for _, m := range sp.Modifies {
+		if i := strings.Index(m, " of "); i >= 0 {
+			m = strings.TrimSpace(m[:i])
+		}
 		switch {
 		case strings.HasPrefix(m, "elems(") && strings.HasSuffix(m, ")"):
 			if t, err := cx.resolveType(m[6 : len(m)-1]); err == nil {
